@@ -190,10 +190,14 @@ def make_base(spec, mixins=()):
             p = self._spec.get("probabilities")
             return float(Fraction(p[m])) if p else 1.0 / self.ensemble_size
 
+        def dynamic_parameters(self):
+            return [self._sym[n] for n in self._spec.get("dynamic_parameters", [])]
+
         def parameters(self, ensemble_member):
             m = ensemble_member
             d = AliasDict(self.alias_relation)
-            for k, v in self._spec.get("param_values", [{}] * self.ensemble_size)[m].items():
+            pv = getattr(self, "_param_override", None) or self._spec.get("param_values", [{}] * self.ensemble_size)
+            for k, v in pv[m].items():
                 d[k] = float(Fraction(v))
             return d
 
